@@ -96,6 +96,7 @@ def correspondence(ctx, violations, known_hits):
     r = dbgcommon.run_dbg_cases(ctx, cases, tags, violations, profiles, aux=AUX,
                                 note="model: writes outside [origin, xFE00) are refused and change nothing (C13_refuse); sums are formed without wrap (C13_no_wrap)")
     real = dbgcommon.cli_cross(ctx, specs, violations, limit=(30 if ctx.tier == "quick" else 600))
+    r["evaluations"] += real.get("sessions", 0)
     # offsets and addresses written as TEXT, beyond what a 16-bit pattern can encode: label+N / ^N / absolute N around
     # 2^15, 2^16 and 2^31 in several radixes must be refused (or accepted) exactly as the grammar and the range rule say
     sessions = []
@@ -119,6 +120,7 @@ def correspondence(ctx, violations, known_hits):
         sessions = sessions[:2500]
     textual = dbgcommon.run_text_sessions(ctx, sessions, violations, aux=AUX,
                                           note="offsets/addresses as text around 2^15, 2^16, 2^31")
+    r["evaluations"] += textual["sessions"]; r["mismatches"] += textual["mismatches"]
     ctx.cleanup()
     return dbgcommon.coverage(r,
         "target addresses (quick: the boundary set {0, origin-1, origin, x7FFF, x8000, xFDFF, xFE00, xFFFF, ...} plus random; thorough: "
